@@ -179,7 +179,7 @@ def probe_params(rnd, thorough):
         nsh = int(np.prod(shsh)) if shsh else 1
         probe = "tone" if i % 3 == 2 else "impulse"
         style = rnd.choice(["whole", "edge-whole"]) if probe == "tone" else \
-            rnd.choice(["uniform", "uniform", "whole", "half", "edge", "mixed", "zero"])
+            rnd.choice(["uniform", "uniform", "whole", "half", "edge", "mixed", "mixed", "zero"])
         A = []
         for _ in range(nsh):
             if style == "uniform":
@@ -193,7 +193,10 @@ def probe_params(rnd, thorough):
             elif style == "edge-whole":
                 a = float(rnd.choice([N - 1, N, N + 1, -(N - 1), -N, -(N + 1), N // 2, -(N // 2), 1, -1, 0]))
             elif style == "mixed":
-                a = rnd.choice([0.0, 0.25, -0.75, rnd.uniform(-N, N), float(rnd.randint(-N, N)), 1e-3, -1e-3])
+                # includes shifts that are a tiny fraction of a bin: unlike time_shift, freq_shift has no
+                # "close to zero" shortcut -- the band edge the content moves into must still be cleared
+                a = rnd.choice([0.0, 0.25, -0.75, rnd.uniform(-N, N), float(rnd.randint(-N, N)), 1e-3, -1e-3,
+                                1e-6, -1e-6, N * 1e-9, -N * 3e-10])
             else:
                 a = 0.0
             A.append(float(a))
